@@ -676,31 +676,18 @@ func (sf *file) prefetchEntireFile(entireCacheID string, chunks []chunkData, tot
 	}
 	defer w.Close()
 
-	batchCount := (totalSize + bufferSize - 1) / bufferSize
-
-	for batchIdx := range batchCount {
-		batchStart := batchIdx * bufferSize
-		batchEnd := min((batchIdx+1)*bufferSize, totalSize)
-
+	// A batch is a run of whole chunks that fits into the merge buffer: a chunk is read into the batch
+	// buffer as a whole, so batches must be cut at chunk boundaries (no chunk is larger than bufferSize here).
+	for next := 0; next < len(chunks); {
 		var batchChunks []chunkData
 		var batchOffset int64
-		for i := range chunks {
-			chunkStart := chunks[i].offset
-			chunkEnd := chunkStart + chunks[i].size
-
-			if chunkEnd <= batchStart {
-				continue
-			}
-			if chunkStart >= batchEnd {
-				break
-			}
-
-			chunks[i].bufferPos = batchOffset
-			batchOffset += chunks[i].size
-			batchChunks = append(batchChunks, chunks[i])
+		for ; next < len(chunks) && (len(batchChunks) == 0 || batchOffset+chunks[next].size <= bufferSize); next++ {
+			chunks[next].bufferPos = batchOffset
+			batchOffset += chunks[next].size
+			batchChunks = append(batchChunks, chunks[next])
 		}
 
-		batchSize := batchEnd - batchStart
+		batchSize := batchOffset
 		buffer := make([]byte, batchSize)
 
 		eg := errgroup.Group{}
